@@ -503,6 +503,71 @@ var Scenarios = map[string]scenario{
 		sub.Unsubscribe()
 		lg.Add(rec.Ev{E: "end"})
 	},
+	"strconv.FormatUint": func(lg *rec.Log, r *rand.Rand) {
+		base := []int{2, 10, 16, 36}[r.Intn(4)]
+		runLift(lg, fmt.Sprintf("strconv.FormatUint(%d)", base), "map", []uint64{0, 1, 255, 1 << 40, 1<<64 - 1, r.Uint64()}, rostrconv.FormatUint[string](base), func(i uint64) (string, error) { return strconv.FormatUint(i, base), nil })
+	},
+	"strconv.FormatComplex": func(lg *rec.Log, r *rand.Rand) {
+		f, prec, bits := []byte{'f', 'e', 'g'}[r.Intn(3)], []int{-1, 0, 3}[r.Intn(3)], []int{64, 128}[r.Intn(2)]
+		runLift(lg, "strconv.FormatComplex", "map", []complex128{0, complex(1, -1), complex(3.14159, 1e21), complex(r.NormFloat64(), r.NormFloat64())}, rostrconv.FormatComplex(f, prec, bits), func(x complex128) (string, error) { return strconv.FormatComplex(x, f, prec, bits), nil })
+	},
+	"strconv.ParseUint64": func(lg *rec.Log, r *rand.Rand) {
+		base, bits := []int{0, 2, 10, 16}[r.Intn(4)], []int{8, 32, 64}[r.Intn(3)]
+		runLift(lg, fmt.Sprintf("strconv.ParseUint64(%d,%d)", base, bits), "maperr", texts(r), rostrconv.ParseUint64[string](base, bits), func(s string) (uint64, error) { return strconv.ParseUint(s, base, bits) })
+	},
+	"strconv.QuoteRune": func(lg *rec.Log, r *rand.Rand) {
+		runLift(lg, "strconv.QuoteRune", "map", []rune{'a', '\n', '\'', 0, 0x65e5, 0xfffd, 0x10ffff, -1}, rostrconv.QuoteRune(), func(c rune) (string, error) { return strconv.QuoteRune(c), nil })
+	},
+	"regexp.FindAll": func(lg *rec.Log, r *rand.Rand) {
+		n := []int{-1, 0, 1, 2}[r.Intn(4)]
+		runLift(lg, fmt.Sprintf("regexp.FindAll(%d)", n), "map", toBytes(texts(r)), roregexp.FindAll[[]byte](reDigits, n), func(s []byte) ([][]byte, error) { return reDigits.FindAll(s, n), nil })
+	},
+	"regexp.FindSubmatch": func(lg *rec.Log, r *rand.Rand) {
+		runLift(lg, "regexp.FindSubmatch", "map", toBytes(texts(r)), roregexp.FindSubmatch[[]byte](reWord), func(s []byte) ([][]byte, error) { return reWord.FindSubmatch(s), nil })
+	},
+	"regexp.FindAllSubmatch": func(lg *rec.Log, r *rand.Rand) {
+		n := []int{-1, 0, 1, 2}[r.Intn(4)]
+		runLift(lg, fmt.Sprintf("regexp.FindAllSubmatch(%d)", n), "map", toBytes(texts(r)), roregexp.FindAllSubmatch[[]byte](reWord, n), func(s []byte) ([][][]byte, error) { return reWord.FindAllSubmatch(s, n), nil })
+	},
+	"regexp.FindAllStringSubmatch": func(lg *rec.Log, r *rand.Rand) {
+		n := []int{-1, 0, 1, 2}[r.Intn(4)]
+		runLift(lg, fmt.Sprintf("regexp.FindAllStringSubmatch(%d)", n), "map", texts(r), roregexp.FindAllStringSubmatch[string](reWord, n), func(s string) ([][]string, error) { return reWord.FindAllStringSubmatch(s, n), nil })
+	},
+	"time.ParseInLocation": func(lg *rec.Log, r *rand.Rand) {
+		layout := []string{"2006-01-02 15:04", "2006-01-02"}[r.Intn(2)]
+		loc := time.UTC
+		if l, err := time.LoadLocation([]string{"Europe/Paris", "America/New_York", "Australia/Lord_Howe"}[r.Intn(3)]); err == nil {
+			loc = l
+		}
+		in := append(texts(r), "2024-03-31 02:30", "2024-10-27 02:30", "2024-03-10 02:30", "2024-02-29") // local times that do not exist / exist twice
+		runLift(lg, "time.ParseInLocation", "maperr", in, rotime.ParseInLocation[string](layout, loc), func(s string) (time.Time, error) { return time.ParseInLocation(layout, s, loc) })
+	},
+	"strings~bytes.Words": func(lg *rec.Log, r *rand.Rand) {
+		in := &interner{ids: map[string]int{}}
+		xs := texts(r)
+		lg.Add(rec.Ev{E: "hdr", S: "strings~bytes.Words", K: "sibling"})
+		sv, err1 := ro.Collect(rostrings.Words[string]()(ro.FromSlice(xs)))
+		bs := toBytes(xs)
+		keep := toBytes(xs)
+		bv, err2 := ro.Collect(robytes.Words[[]byte]()(ro.FromSlice(bs)))
+		for i := 0; i < len(sv) && i < len(bv); i++ {
+			bw := make([]string, len(bv[i]))
+			for j := range bv[i] {
+				bw[j] = string(bv[i][j])
+			}
+			lg.Add(rec.Ev{E: "sib", V: in.id(strings.Join(sv[i], "\x1f")), I: in.id(strings.Join(bw, "\x1f")), B: isASCII(xs[i])})
+		}
+		for i := range bs {
+			lg.Add(rec.Ev{E: "rt", V: in.id(string(keep[i])), I: in.id(string(bs[i]))})
+		}
+		ok := err1 == nil && err2 == nil && len(sv) == len(xs) && len(bv) == len(xs)
+		lg.Add(rec.Ev{E: "out", K: map[bool]string{true: "C", false: "E"}[ok]})
+		if !ok {
+			lg.Add(rec.Ev{E: "panic", S: fmt.Sprintf("sibling runs differ in length or failed: %v %v %d %d", err1, err2, len(sv), len(bv))})
+		}
+		lg.Add(rec.Ev{E: "torn"})
+		lg.Add(rec.Ev{E: "end"})
+	},
 	// ------------------------------------------------------------------ CSV reader / writer, io.Writer sink
 	"csv.reader": func(lg *rec.Log, r *rand.Rand) {
 		// records of awkward fields, written by encoding/csv itself; one run in three is damaged (a bare quote, or a record with one field less)
